@@ -7,6 +7,7 @@ import JV.Drv.Pointer
 import JV.Drv.Patch
 import JV.Drv.Number
 import JV.Drv.JsonText
+import JV.Drv.JsonParser
 import JV.Drv.Source
 import JV.Drv.Binary
 import JV.Drv.Dom
@@ -24,6 +25,7 @@ def dispatch (line : String) : String :=
   | "patch" :: rest => patchLine rest
   | "num" :: rest => numberLine rest
   | "big" :: rest => bigLine rest
+  | "jt" :: "pevents" :: rest => jsonParserLine ("pevents" :: rest)
   | "jt" :: rest => jsonTextLine rest
   | "src" :: rest => sourceLine rest
   | "bin" :: rest => binaryLine rest
